@@ -68,7 +68,7 @@ def spec_universe(tier):
 DEFAULTS = ["[]", "{}", "set()", "([],)", "{'k': []}", "[[1]]"]
 DECL_KINDS = ["schema-plain", "schema-field", "schema-factory", "dataclass-plain", "dataclass-field", "func-plain", "func-param",
               "schema-defer", "schema-defer-options", "dataclass-defer", "schema-defer-factory", "schema-force-default",
-              "schema-force-default-runtime", "func-posonly", "func-kwonly"]
+              "schema-force-default-runtime", "func-posonly", "func-kwonly", "schema-lax-const", "rule-lax-enum"]
 
 
 # default *factories* that build a new object on every call: what they return may hold any mutable object (not only the
@@ -197,6 +197,13 @@ def decl_source(kind, dexpr):
         sub = "class S(S0):\n    n: int = 0\n" if kind.endswith("-sub") else ""
         return (f"import itertools as _it\nCOUNTER = _it.count()\nD = None\nclass {'S0' if sub else 'S'}({base}):\n"
                 f"    a: Any = Field(default_factory=lambda: {dexpr})\n{sub}def new():\n    return S()\nget = lambda r: r.a\n")
+    if kind == "schema-lax-const":
+        # a lax constant replaces whatever is given: what comes back is a value of the instance, not the declared object
+        tn = type(ev(dexpr)).__name__
+        return (f"D = {dexpr}\nclass S(Schema):\n    a: {tn} = Field(const=Lax(D))\ndef new():\n    return S(a={tn}())\n"
+                "get = lambda r: r.a\n")
+    if kind == "rule-lax-enum":
+        return (f"D = {dexpr}\nR_ = RC(None, enum=Lax([D, 5]))\ndef new():\n    return type_transform('other', R_)\nget = lambda r: r\n")
     if kind == "func-plain":
         return f"D = {dexpr}\n@utype.parse\ndef F(a: Any = D, n: int = 0):\n    return a\ndef new():\n    return F()\nget = lambda r: r\n"
     if kind == "func-posonly":
